@@ -11,9 +11,12 @@ import (
 	"os"
 	"strconv"
 	"sync"
+	"time"
 
 	"github.com/cenkalti/rain/v2/verifhook"
 )
+
+const caseTimeout = 90 * time.Second
 
 func caseSeed(seed int64, kind, idx int) int64 {
 	x := uint64(seed)*0x9E3779B97F4A7C15 + uint64(kind)*0xBF58476D1CE4E5B9 + uint64(idx)*0x94D049BB133111EB
@@ -63,6 +66,7 @@ func main() {
 		fmt.Fprintln(os.Stderr, "unknown kind", kind)
 		os.Exit(2)
 	}
+	hung := false
 	lines := make([]string, count)
 	notes := make([]string, count)
 	var wg sync.WaitGroup
@@ -74,7 +78,16 @@ func main() {
 			defer wg.Done()
 			defer func() { <-sem }()
 			r := rand.New(rand.NewSource(caseSeed(seed, kind, start+i)))
-			c := g(r, tier)
+			// a case that does not come back (the client under test hangs) is reported, not waited for
+			done := make(chan verifhook.Case, 1)
+			go func() { done <- g(r, tier) }()
+			var c verifhook.Case
+			select {
+			case c = <-done:
+			case <-time.After(caseTimeout):
+				c = verifhook.Case{In: []int64{0}, Obs: []int64{verifhook.HangMark}, Note: "hang"}
+				hung = true
+			}
 			c.Kind = kind
 			lines[i] = verifhook.Line(c)
 			notes[i] = c.Note
@@ -89,5 +102,9 @@ func main() {
 		} else {
 			fmt.Fprintln(w, l)
 		}
+	}
+	if hung {
+		w.Flush()
+		os.Exit(0) // stuck goroutines of hung cases must not keep the process alive
 	}
 }
